@@ -40,6 +40,8 @@ struct Val {
   KnownBits kb = KnownBits(64);
   int root = -1;                    // linkage: value (or offset) == roots[root] + rk
   i128 rk = 0;
+  int croot = -1;                   // complement linkage: value == ck - roots[croot]
+  i128 ck = 0;
   bool hascs = false;               // value in [0,255] and member of cs
   std::bitset<256> cs;
   uint8_t prov = 0;
